@@ -75,8 +75,12 @@ def finish(seed, pid, name, patch, demo, meta, out, run_all):
 	# ---- run the checks against /repo with the patch applied -----------------------------------------
 	import fcntl
 	lock = open('/tmp/eval_seed.lock', 'w')
-	fcntl.flock(lock, fcntl.LOCK_EX)
-	if out['confirmed'] or '--force' in sys.argv:
+	if '--confirm-only' not in sys.argv:
+		fcntl.flock(lock, fcntl.LOCK_EX)
+	if '--confirm-only' in sys.argv:
+		out.setdefault('checks', {}); out.setdefault('caught_by', []); out.setdefault('broken', [])
+		res = {}
+	elif out['confirmed'] or '--force' in sys.argv:
 		if sh('git -C /repo diff --quiet').returncode != 0:
 			print('/repo dirty; abort'); return 3
 		ids = [pid]
